@@ -741,7 +741,7 @@ pub fn reentrant_programs() -> Vec<String> {
             out.push(format!("l = [3, 1, 2]\ncb = |x|\n  {e}\n  x\npb = |x|\n  {e}\n  true\nfb = |a, x|\n  {e}\n  a\ntry\n  r = {c}\n  print r\ncatch err\n  print 'error'\nprint l\n"));
         }
         // overloaded comparison operators running under sort / min / max
-        for c in ["l.sort()", "l.min()", "l.max()", "l.min_max()", "l.sort |x| x", "l.contains l[0]", "l == [l[0], l[1]]"] {
+        for c in ["l.sort()", "l.min()", "l.max()", "l.min_max()", "l.sort |x| x", "l.contains l[0]", "l == [l[0], l[1]]", "l == [l[0], l[1], l[2]]", "[l[2], l[1], l[0]] == l", "(l, 1) == (koto.copy(l), 1)", "l != koto.copy(l)", "{k: l} == {k: koto.copy(l)}"] {
             out.push(format!(
                 "l = []\nmk = |n|\n  n: n\n  @<: |o|\n    {e}\n    self.n < o.n\n  @==: |o|\n    {e}\n    self.n == o.n\n  @display: || 'o{{self.n}}'\nl.push mk 2\nl.push mk 1\nl.push mk 3\ntry\n  r = {c}\n  print r\ncatch err\n  print 'error'\nprint l\n"
             ));
